@@ -350,6 +350,27 @@ class Columns(LinesPart):
         return lines
 
 
+class ZeroRuns(LinesPart):
+    name = "long_runs_of_leading_zeros"
+    desc = "IPv4 octets written with 1 .. 20000 leading zeros (around the interpreter's 4300-digit integer limit), in each octet position"
+
+    def cases(self):
+        return [{"n": n} for n in (1, 2, 8, 100, 1000, 4296, 4297, 4298, 4299, 4300, 4301, 5000, 20000)]
+
+    def gen(self, case):
+        z = "0" * case["n"]
+        lines = []
+        for a, b, c, d in (("11", "22", "33", "44"), ("8", "8", "4", "4"), ("255", "255", "255", "0"), ("10", "1", "2", "3")):
+            octs = [a, b, c, d]
+            for i in range(4):
+                o = list(octs)
+                o[i] = z + o[i]
+                t = ".".join(o)
+                lines += [t, " ip address %s/24 x" % t]
+            lines.append(".".join(z + o for o in octs))
+        return lines
+
+
 class FixedPoints(LinesPart):
     name = "addresses_that_map_to_themselves"
     desc = "option sets under which many or all addresses are their own image (all host bits kept, host prefixes): every spelling is still replaced by the canonical text"
@@ -423,5 +444,5 @@ class BothDirections(Part):
 
 
 def parts(tier, seed):
-    return [FixedPoints(tier, seed), V4Tokens(tier, seed), V6Tokens(tier, seed), V6Tails(tier, seed), Contexts(tier, seed),
+    return [FixedPoints(tier, seed), ZeroRuns(tier, seed), V4Tokens(tier, seed), V6Tokens(tier, seed), V6Tails(tier, seed), Contexts(tier, seed),
             Boundary(tier, seed), LongLines(tier, seed), Columns(tier, seed), BothDirections(tier, seed)]
